@@ -56,6 +56,8 @@ impl Gen {
         }
     }
     fn run(&mut self, t: &mut Trace, kind: &str, a: &[usize], id: u32, n: u32, lu: u32, auth: &[usize]) -> bool {
+        // the access-control example has no sequential mint: the next fresh id is minted explicitly
+        let (kind, id) = if self.s.fl == Flavour::Acx && kind == "mint" { ("mint_id", self.next) } else { (kind, id) };
         let names_id = matches!(kind, "mint_id" | "transfer" | "transfer_from" | "approve" | "burn" | "burn_from");
         // remember who owned / was approved before the op, for "former" actors
         let (before_owner, before_appr) = if names_id { (self.s.owner_of(id), self.s.get_approved(id)) } else { (None, None) };
@@ -69,6 +71,9 @@ impl Gen {
             match kind {
                 "mint" => {
                     self.next = ret.unwrap() + 1;
+                }
+                "mint_id" if self.s.fl == Flavour::Acx => {
+                    self.next = self.next.max(id + 1);
                 }
                 "batch_mint" => {
                     self.next = ret.unwrap() + 1;
@@ -429,6 +434,8 @@ fn main() {
     }
     directed_for(&mut t, Flavour::Cons, 16);
     directed_for(&mut t, Flavour::Exp, 16);
+    directed_for(&mut t, Flavour::Acx, 1);
+    directed_for(&mut t, Flavour::Acx, 16);
     for fl in [Flavour::Seq, Flavour::Enum, Flavour::Cons] {
         directed_long(&mut t, fl, 1);
     }
@@ -437,7 +444,7 @@ fn main() {
         let mut fl = match rng.below(10) {
             0 | 1 | 2 => Flavour::Seq,
             3 | 4 | 5 => Flavour::Enum,
-            6 => Flavour::Exp,
+            6 => if rng.chance(50) { Flavour::Exp } else { Flavour::Acx },
             _ => Flavour::Cons,
         };
         match arg_str("--only").as_deref() {
